@@ -228,7 +228,7 @@ func Edit(t *rapid.T, s *Schema, o Opts, protect map[string]bool) string {
 	}
 	kinds := []string{"add-column", "drop-column", "modify-type", "modify-null", "modify-default", "toggle-generated",
 		"add-index", "drop-index", "modify-index", "change-pk", "add-fk", "drop-fk", "modify-fk", "add-check", "drop-check",
-		"toggle-without-rowid", "toggle-strict", "add-table", "drop-table", "add-column", "add-index", "modify-type"}
+		"toggle-without-rowid", "toggle-strict", "add-table", "drop-table", "add-column", "add-index", "modify-type", "retype-notnull"}
 	if len(o.Kinds) > 0 {
 		kinds = o.Kinds
 	}
@@ -278,6 +278,29 @@ func Edit(t *rapid.T, s *Schema, o Opts, protect map[string]bool) string {
 			return ""
 		}
 		c.Default = ""
+	case "retype-notnull":
+		// one column changes in two ways at once: it becomes NOT NULL and moves to another numeric type, its DEFAULT stays
+		// (the value stored NULLs are back-filled with)
+		var cand []int
+		for _, i := range editable() {
+			if c := tb.Cols[i]; !c.NotNull && c.Default != "" && isNumeric(c.Type) && !strings.ContainsAny(c.Default, "(.") {
+				cand = append(cand, i)
+			}
+		}
+		if len(cand) == 0 {
+			return ""
+		}
+		c := &tb.Cols[pick(t, "modcol", cand)]
+		old := c.Type
+		pool := []string{"integer", "real", "numeric", "double", "bigint"}
+		if tb.Strict {
+			pool = []string{"integer", "real"}
+		}
+		c.Type = pick(t, "newntype", pool)
+		if strings.EqualFold(c.Type, old) {
+			return ""
+		}
+		c.NotNull = true
 	case "modify-null":
 		ed := editable()
 		if len(ed) == 0 {
